@@ -26,6 +26,7 @@ package patch
 //@   assume image_span: from < 0x7fffffff00000000 && trampoline < 0x7fffffff00000000 && -0x7fff0000 <= int(from) - int(trampoline) && int(from) - int(trampoline) <= 0x7fff0000
 //@     | && (ins.PCRelOff > 0 ==> bytecode.fits32(ins_disp(ins, block, pos)) && bytecode.fits32(ins_disp(ins, block, pos) + int(from) - int(trampoline)))
 //@   assigns block[pos + ins.PCRelOff : pos + ins.PCRelOff + ins.PCRel]
+//@   ensures result_length: len(result) >= ins.Len && len(result) <= ins.Len + 4 && arr(result) != textref
 //@   ensures no_pcrel_verbatim: ins.PCRelOff <= 0 ==> result == block[pos : pos + ins.Len]
 //@   ensures internal_target_verbatim: ins.PCRelOff > 0 && !entry_must_relocate(ins, block, pos, blockSize) ==> result == block[pos : pos + ins.Len]
 //@     | && forall i int :: 0 <= i && i < ins.Len ==> block[pos + i] == old(block[pos + i])
@@ -51,3 +52,16 @@ package patch
 //@   assigns nothing
 //@   fresh
 //@   ensures ok_shape: err == nil ==> arr(fixedData) != textref && 0 <= len(fixedData) && len(fixedData) < 0x100000 && leastSize <= fixedDataSize && fixedDataSize <= funcSize
+
+// fixBlock copies whole instructions into a fresh buffer, re-encoding through fixIns.  The instruction
+// decoded at input offset pos is appended at output offset len(fixedBlock); fixIns must therefore be told a
+// base address such that base + pos is where the instruction will actually sit (call_requires below) -
+// otherwise every PC-relative operand copied after a widened short branch is off by the growth so far.
+//@ func fixBlock
+//@   props C03 C16
+//@   requires block: arr(block) != textref && len(block) < 0x100000 && 0 <= blockSize && blockSize < 0x100000 && bytecode.opexpand_wf()
+//@   call_requires fixIns placed_where_it_is_told: int(arg5) + arg1 == int(trampoline) + len(fixedBlock)
+//@   invariant[C03,slow] loop 1 progress: 0 <= pos && pos <= len(block) && fresh(fixedBlock) && 0 <= len(fixedBlock) && len(fixedBlock) <= pos * 20 && elems_unchanged_since_entry(byte)
+//@     | && arr(block) != textref && bytecode.opexpand_wf()
+//@   ensures consumed_input: err == nil ==> 0 <= fixedDataSize
+//@   panics_only_if decoder_error_or_cannot_encode: true
